@@ -687,6 +687,10 @@ func Run(c *common.Ctx) error {
 	// a release that names a lock which is not the current one (the holder's lock expired, the primary granted another
 	// one whose answer was lost) leaves the current lock alone
 	scripts = append(scripts, []event{{Kind: "grant", ID: 11, Delivered: true}, {Kind: "expire"}, {Kind: "grant", ID: 12, Delivered: false}, {Kind: "release", Delivered: true}, {Kind: "localwrite"}, {Kind: "expire"}, {Kind: "localwrite"}})
+	// the holder asks for its own lock again after it has committed under it: the lock's position is the one of the first
+	// grant, which the holder has left behind - the request fails, the lock is given back (at the primary and on the holder,
+	// whose log is checkpointed as at any release), and everybody follows the primary's next transaction
+	scripts = append(scripts, []event{{Kind: "grant", ID: 11, Delivered: true}, {Kind: "commit", Delivered: true}, {Kind: "commit", Delivered: true}, {Kind: "grant", ID: 11, Delivered: true}, {Kind: "commit", Delivered: true}, {Kind: "localwrite"}, {Kind: "localwrite"}})
 	if c.Replay != "" {
 		b, err := os.ReadFile(c.Replay)
 		if err != nil {
